@@ -40,7 +40,7 @@ THEOREMS = [
         "sscanf_parses_field sscanf_parses_recognised fixed_branch_accuracy fixed_precision_maximal "
         "sci_consts_ok sci_width_accuracy sci_width "
         "carry_guard_sound int_field_roundtrip blank_field_roundtrip line_roundtrip "
-        "card_line_roundtrip_partial str_field_roundtrip card_fields_ok card_roundtrip_small card_roundtrip_large"
+        "card_line_roundtrip_partial str_field_roundtrip card_fields_ok card_roundtrip_small card_roundtrip_large card_roundtrip_comma card_fixed_comma_agree"
     ).split()
 ]
 TRUSTED = [
